@@ -181,8 +181,21 @@ func (g *fnGen) eval(e SExpr, env *evalEnv) (string, types.Type, error) {
 		quant := "(" + qn + " (" + strings.Join(decls, " ") + ") " + body + ")"
 		if !x.Forall && len(x.Vars) == 1 {
 			// exists x :: P(x) is equivalent to P(c) || exists x :: P(x); offering the running range
-			// index as a witness spares the solver an instantiation it rarely finds by itself
-			if cv, ct, err := g.evalIdent("rangeindex", env); err == nil && ct != nil {
+			// index and the function's integer locals as witnesses spares the solver an instantiation
+			// it rarely finds by itself
+			cands := []string{"rangeindex"}
+			if bt, ok := ne.bound[x.Vars[0].Name].typ.Underlying().(*types.Basic); ok && bt.Info()&types.IsInteger != 0 {
+				for _, l := range g.fn.Locals {
+					if lb, ok := deref(l.Type()).Underlying().(*types.Basic); ok && lb.Info()&types.IsInteger != 0 && l.Comment != "" && len(cands) < 5 {
+						cands = append(cands, l.Comment)
+					}
+				}
+			}
+			for _, cn := range cands {
+				cv, ct, err := g.evalIdent(cn, env)
+				if err != nil || ct == nil {
+					continue
+				}
 				we := *env
 				we.bound = map[string]binding{}
 				for k, v := range env.bound {
@@ -1107,7 +1120,7 @@ func (g *fnGen) axiomRelevant(ax *Axiom) bool {
 	if ax.PkgPath != "" && ax.PkgPath == g.ct.PkgPath {
 		return true
 	}
-	return ax.PkgPath == "" && g.mentionsAny(specFuncsIn(ax.E))
+	return g.mentionsAny(specFuncsIn(ax.E))
 }
 
 func specFuncsIn(e SExpr) map[string]bool {
